@@ -59,8 +59,16 @@ def replace(e, old, new):
 
 
 def translate(run: Run) -> bool:
-    """Regenerate coq/gen/GenC05.v from the working tree.  False (and run.broken) when the source
-    no longer has a shape the translator understands."""
+    """Regenerate coq/gen/GenC05.v (rules of the schedule, source-level facts of harness/translate/c05_run.py) and coq/gen/GenC11.v (the
+    control flow of a fit, C11's translator) from the working tree.  False (and run.broken) when the source no longer has a shape the
+    translators understand.  Both are always attempted, so that coq/gen never keeps a file of another tree."""
+    ok5 = _translate_rules(run)
+    # the control flow of a fit (coq/gen/GenC11.v): Props/C05.v states the schedule over it
+    ok11 = c11_run.translate(run)
+    return ok5 and ok11
+
+
+def _translate_rules(run: Run) -> bool:
     try:
         samplers = pysym.load_methods(SRC / "algo" / "algo_with_samplers.py", "AlgorithmWithSamplersMixin")
         saem = pysym.load_methods(SRC / "algo" / "fit" / "mcmc_saem.py", "TensorMcmcSaemAlgorithm")
@@ -146,9 +154,6 @@ def translate(run: Run) -> bool:
         run.trusted.append("harness/translate/c05_run.py (python ast: shape of _maximization_step around the two named events, writers of the "
                            "register / of n_burn_in_iter along the class bases, factory -> class -> C3 MRO -> constructor chain of mcmc_saem, "
                            "mean_posterior, mode_posterior)")
-        # the control flow of a fit (coq/gen/GenC11.v): Props/C05.v states the schedule over it
-        if not c11_run.translate(run):
-            return False
         run.trusted.append("translator harness/translate/pysym.py + harness/props/c05.py (python ast -> Gallina for _is_burn_in, _maximization_step, the two constructors)")
         return True
     except (Untranslatable, KeyError, OSError, SyntaxError, AttributeError, IndexError, StopIteration) as e:
@@ -435,7 +440,7 @@ def _t(v):
     return v.detach().clone()
 
 
-def real_fit_schedule(run: Run, thorough: bool):
+def real_fit_schedule(run: Run, thorough: bool, only=None):
     """Wrap _maximization_step in short real fits: the branch taken and the flag must follow the model,
     and S_k must satisfy the recurrence (float32 tolerance)."""
     import torch
@@ -446,6 +451,8 @@ def real_fit_schedule(run: Run, thorough: bool):
     if thorough:
         configs += [("logistic", 12, 12, 0.6, False), ("shared_speed_logistic", 9, 4, 0.51, False), ("logistic", 10, 9, 0.8, False),
                     ("linear", 9, 0, 0.9, True)]
+    if only is not None:
+        configs = [only]
     orig = TensorMcmcSaemAlgorithm._maximization_step
     trace_cases, trace_meta, mstep_cases, mstep_meta = [], [], [], []
     for kind, n_iter, nb, power, reuse in configs:
@@ -641,6 +648,28 @@ def replay(run: Run, path: str):
     use_impl()
     d = json.load(open(path))
     inp = d.get("input") or {}
+    if isinstance(inp, dict) and inp.get("algorithm") in ("mcmc_saem",) + PERSO_ALGOS and "n_iter" in inp:
+        # a constructor case: the memory-less length resolved for (algorithm, n_iter, count, fraction)
+        name, n_iter = inp["algorithm"], int(inp["n_iter"])
+        fr = inp.get("n_burn_in_iter_frac", inp.get("frac"))
+        given = inp.get("n_burn_in_iter") if ("resolved" in inp or fr is None) else None
+        try:
+            got = make_algo(n_iter, n_burn=given, frac_=fr, name=name).algo_parameters["n_burn_in_iter"]
+        except Exception as e:
+            print(f"{name}: constructor raised {type(e).__name__}: {e}")
+            print("REPLAY FAILS")
+            return 1
+        want = given if given is not None else int(fr * n_iter)
+        print(f"{name}: n_iter={n_iter} count={given} fraction={fr}: n_burn_in_iter resolved to {got}, expected {want}")
+        print("REPLAY", "FAILS" if got != want else "passes")
+        return 1 if got != want else 0
+    if isinstance(inp, dict) and "kind" in inp and "same_algorithm_object_run_twice" in inp:
+        # a real-fit configuration: re-run it with the recording wrappers and the order / counter oracles
+        real_fit_schedule(run, False, only=(inp["kind"], int(inp["n_iter"]), int(inp["n_burn_in_iter"]),
+                                            float(inp.get("burn_in_step_power", 0.8)), bool(inp["same_algorithm_object_run_twice"])))
+        bad = run.has_problem()
+        print("REPLAY", "FAILS" if bad else "passes")
+        return 1 if bad else 0
     if not isinstance(inp, dict) or "n_burn_in_iter" not in inp:
         print("replay: this file records a broken obligation, re-run the check itself:", [b["name"] for b in d.get("broken", [])])
         return main(run)
